@@ -122,6 +122,29 @@ Theorem C15_pratt_generic :
 Proof. exact pratt_ok. Qed.
 Print Assumptions C15_pratt_generic.
 
+(* the formatter's and the parser's operator tables agree (associativity per operator, reversed order of
+   precedence vs binding power, prefix operators tightest) *)
+Theorem C15_tables_agree_formula :
+  (forall c, match formula_in_bp c with Some (_, a) => fmt_formula_assoc (conn_kind c) = Some a | None => False end) /\
+  (forall c1 c2, match formula_in_bp c1, formula_in_bp c2 with
+                 | Some (p1, _), Some (p2, _) =>
+                     (fmt_formula_prec (conn_kind c1) < fmt_formula_prec (conn_kind c2) <-> p2 < p1)
+                 | _, _ => False end) /\
+  (forall c, match formula_in_bp c with Some (p, _) => p < fpn /\ 1 <= p | None => False end) /\
+  fmt_formula_assoc KNot = Some ALeft /\ fmt_formula_assoc KQuant = Some ALeft.
+Proof. exact tables_agree_formula. Qed.
+Print Assumptions C15_tables_agree_formula.
+Theorem C15_tables_agree_term :
+  (forall o, match iterm_in_bp o with Some (_, a) => fmt_iterm_assoc (binop_kind o) = Some a | None => False end) /\
+  (forall o1 o2, match iterm_in_bp o1, iterm_in_bp o2 with
+                 | Some (p1, _), Some (p2, _) =>
+                     (fmt_iterm_prec (binop_kind o1) < fmt_iterm_prec (binop_kind o2) <-> p2 < p1)
+                 | _, _ => False end) /\
+  (forall o, match iterm_in_bp o with Some (p, _) => p < ipn /\ 1 <= p | None => False end) /\
+  fmt_iterm_assoc KNeg = Some ALeft.
+Proof. exact tables_agree_term. Qed.
+Print Assumptions C15_tables_agree_term.
+
 (* ---------- non-vacuity and witnesses (vm_compute on the executable models) ---------- *)
 Definition ex_text : string :=
   "forall X (Y = 3). forall X Y$i (X = Y$i + 1 -> exists Z$s (p(Z$s, -5, -(5)) and not not q or #false <-> r(#inf))).
